@@ -1047,6 +1047,8 @@ def r10_flag_writers_and_pairing(facts):
         for x in walk(e):
             if x.get("k") == "Call" and resolved(x) == fn:
                 return True
+            if x.get("k") == "FnItem" and ((x.get("fn") or {}).get("resolved") or (x.get("fn") or {}).get("path")) == fn:
+                return True     # `.map(Array::stop_tracking)`: the function item is applied to every element
             if x.get("k") == "Closure":
                 cb = vf.body(x["closure"])
                 if cb and any(y.get("k") == "Call" and resolved(y) == fn for y in walk(vf.root(cb))):
@@ -1266,11 +1268,32 @@ def r23_engine_state_layering(facts):
                 c.check(ok, inst, where, "Debug::fmt reads the counter for display only", "Debug::fmt writes the counter")
             elif r == "gradient" and rootdef in accessors:
                 c.ok(inst, where, "public gradient accessor (only RefCell / Option access on the slot)")
+            elif r in ("counter", "gradient") and _read_only_uses(facts, b, roles[r], r):
+                c.ok(inst, where, "read-only use of the %s slot (%s): nothing is left behind" % (r, "Cell::get" if r == "counter" else "RefCell::borrow / try_borrow"))
             else:
                 c.bad(inst, where, "%s touches the %s slot of an array: engine state is reserved to backward/propagate_consumers "
                       "(residue left here is only seen by a later overlapping pass)" % (b["def"], r))
     c.floor("engine-state touch sites", n, 6)
     return c
+
+
+def _read_only_uses(facts, b, fields, role_):
+    """every mention of the slot field in the body (and the closures nested in it) is the receiver of a read-only cell method"""
+    allowed = (CELL + "get",) if role_ == "counter" else (REFCELL + "borrow", REFCELL + "try_borrow")
+    mentions = 0
+    reads = 0
+    for nb in facts.nested(b):
+        root = facts.root(nb)
+        if root is None:
+            continue
+        for n in walk(root):
+            if n.get("k") == "Field" and n.get("adt") == ARRAY and n.get("name") in fields:
+                mentions += 1
+            if n.get("k") == "Call" and callee(n) in allowed and n["args"]:
+                r, ch = field_chain(n["args"][0])
+                if ch and ch[-1] in fields:
+                    reads += 1
+    return mentions > 0 and mentions == reads
 
 
 def _writes_cell(facts, b, fields):
